@@ -15,12 +15,16 @@ structure Spec where
   reqs : List (Nat × Nat) := []   -- add-reader request id ↦ reader
   avail : Bool := false           -- a stream is up (`ready` seen, no `notready` since)
   mustClose : List Nat := []      -- readers attached when the stream went away in this op, not yet closed
+  closing : Bool := false         -- the path terminated in this op
   err : Option String := none
 
 def Spec.fail (sp : Spec) (m : String) : Spec := if sp.err.isSome then sp else { sp with err := some m }
 
 def specTok (sp : Spec) (t : String) : Spec :=
   if t == "notready" then { sp with avail := false, mustClose := sp.mustClose ++ sp.att }
+  else if t == "rmpath" then
+    -- the path terminates: whatever happens to the stream, every reader attached now must be closed
+    { sp with mustClose := sp.mustClose ++ sp.att, closing := true }
   else if t == "ready" then
     if sp.avail && !sp.att.isEmpty then
       -- the stream object was replaced while readers were attached to the old one, none of them closed
@@ -42,7 +46,7 @@ def specTok (sp : Spec) (t : String) : Spec :=
     else sp
 
 def specOp (sp : Spec) (o : Drv.Op) (impl : String) : Spec :=
-  let sp := { sp with err := none, mustClose := [] }
+  let sp := { sp with err := none, mustClose := [], closing := false }
   match o with
   | .reset c =>
     (Drv.implToks impl).foldl specTok { max := c.conf.maxReaders }
@@ -61,8 +65,10 @@ def specOp (sp : Spec) (o : Drv.Op) (impl : String) : Spec :=
         else sp
       | _ => sp
     let sp := if !sp.mustClose.isEmpty then
-        sp.fail s!"stream became unavailable but attached readers {sp.mustClose} were not closed"
+        (if sp.closing then sp.fail s!"path terminated but attached readers {sp.mustClose} were not closed"
+         else sp.fail s!"stream became unavailable but attached readers {sp.mustClose} were not closed")
       else sp
+    let sp := if sp.closing && sp.avail then sp.fail "path terminated but its stream was not taken down" else sp
     if sp.max != 0 && sp.att.length > sp.max then
       sp.fail s!"{sp.att.length} readers attached, maxReaders = {sp.max}"
     else sp
